@@ -143,7 +143,7 @@ M c04_error_not_counted C04 'C04.3' 'contained entry failure not counted' src/ba
                     continue;' \
 '                    monitor.error(err);
                     continue;'
-M c04_entry_error_dropped C04,C10 'C04.3' 'contained entry failure neither reported nor counted' src/backup.rs \
+M c04_entry_error_dropped C04 'C04.3' 'contained entry failure neither reported nor counted' src/backup.rs \
 '                Err(err) => {
                     monitor.error(err);
                     stats.errors += 1;
@@ -363,7 +363,7 @@ M c10_restore_file_error_silent C10 'C10.3c' 'a failed file restore is not repor
                 {
                     continue;
                 }'
-M c10_list_error_expect C10,C04 'C04.2' 'index listing error panics again' src/index/mod.rs \
+M c10_list_error_expect C04 'C04.2' 'index listing error panics again' src/index/mod.rs \
 '        let (hunks, list_error) = match self.hunks_available().await {
             Ok(hunks) => (hunks, None),
             Err(err) => (Vec::new(), Some(err)),
